@@ -13,7 +13,8 @@ def first_of(*pairs):
     return conds
 
 
-@harness('K1', targets='kopf._core.intents.causes.detect_changing_cause', props=['C05', 'C14', 'C03', 'C06', 'C15'],
+@harness('K1', targets='kopf._core.intents.causes.detect_changing_cause', props=['C05', 'C14', 'C03', 'C06', 'C15', 'C11', 'C13', 'C02', 'C04'],
+         prop_clauses={'C11': ['precedence'], 'C13': ['precedence', 'create_clears_initial'], 'C02': ['precedence', 'passes_through'], 'C04': ['precedence', 'passes_through']},
          clauses=['precedence', 'create_clears_initial', 'passes_through', 'total'],
          canaries=['canary.never_update', 'canary.initial_kept_on_create'])
 def K1(vc):
